@@ -389,7 +389,11 @@ func (d *c05mem) opNew(logSize, maxSize int64) {
 	d.readers = map[int]*c05mReader{}
 	d.nextRid = 0
 	d.trace = nil
-	d.emit(fmt.Sprintf("mnew %d %d", logSize, maxSize), "ok")
+	mm := maxSize
+	if mm < 0 {
+		mm = 0 // the configuration's "unlimited" is -1; the model's is 0
+	}
+	d.emit(fmt.Sprintf("mnew %d %d", logSize, mm), "ok")
 }
 
 func (d *c05mem) opSetRun(id string) {
@@ -796,7 +800,7 @@ func c05mSegLen(seg *memorySegment) int {
 // collector may remove then depends on the scheduler (outside a sequential
 // harness). Multi-piece appends are kept when nothing has to be collected.
 func (d *c05mem) pieceLimit(want int, segLen int) int {
-	if d.maxSize == 0 {
+	if d.maxSize <= 0 {
 		return want
 	}
 	d.mc.mux.RLock()
@@ -1012,9 +1016,28 @@ func (d *c05mem) finishCase() {
 func (d *c05mem) runCase(nops int) {
 	ls := int64(vfutil.Pick(d.r, []int{32, 48, 64, 128, 256}))
 	ms := ls * int64(3+d.r.Intn(5))
+	msKind := "n_segments"
 	if d.r.Chance(1, 8) {
 		ms = 0
+		msKind = "0"
+		if d.r.Chance(1, 2) {
+			ms = -1 // the configuration's "unlimited"
+			msKind = "minus_1"
+		}
+	} else if d.caseNo%6 == 2 {
+		// dimension audit: the configuration clamps LogSize to MaxSize - the boundary LogSize == MaxSize
+		// (ONE segment is the whole budget) and two segments
+		ms = ls * int64(1+d.r.Intn(2))
+		msKind = "one_or_two_segments"
 	}
+	if d.caseNo%12 == 5 {
+		ls = int64(vfutil.Pick(d.r, []int{1, 2, 8})) // a segment of one / two / eight bytes
+		if ms > 0 && ms < ls {
+			ms = ls
+		}
+	}
+	d.s.Count(fmt.Sprintf("cfg_LogSize_%d", ls))
+	d.s.Count("cfg_MaxSize_" + msKind)
 	d.opNew(ls, ms)
 	for i := 0; i < nops; i++ {
 		if d.step() {
